@@ -15,7 +15,10 @@ Inductive case :=
          (in_guard : bool)
 (* successive calls against ONE server whose templates overlap (prefix/{p1} and prefix/{p1}/{p2}): each call must reach
    its own operation with its own values, whatever was called before *)
-| CRoundSeq (panicked : bool) (steps : list (bool * bool * list (bytes * list bytes) * list (bytes * list bytes))).
+| CRoundSeq (panicked : bool) (steps : list (bool * bool * list (bytes * list bytes) * list (bytes * list bytes)))
+(* calls submitted at the same time, each against its own server (uploads in flight together): per call
+   (failed, handler ran + credential + response intact, supplied, received); large files appear as digest + length *)
+| CRoundPar (calls : list (bool * bool * list (bytes * list bytes) * list (bytes * list bytes))).
 
 Definition check_case (c : case) : N :=
   match c with
@@ -30,5 +33,9 @@ Definition check_case (c : case) : N :=
     let ok := negb panicked &&
               forallb (fun st => match st with (failed, right_op, supplied, received) =>
                                    negb failed && right_op && list_eqb kv_eqb supplied received end) steps in
+    verdict ok ok
+  | CRoundPar calls =>
+    let ok := forallb (fun st => match st with (failed, rest_ok, supplied, received) =>
+                                   negb failed && rest_ok && list_eqb kv_eqb supplied received end) calls in
     verdict ok ok
   end.
